@@ -248,7 +248,7 @@ def define_handler_units():
     c.raises = {"PathIOError": [], "CancelledError": [], "Exception": []}
     for verb, meth in VERBS.items():
         for mode in ("SEQ",):
-            c = contract(SERVER, f"Server.{meth}", props=["C03", "C04", "C05", "C11", "C13"] + (["C10"] if meth == "user" else []) + (["C14"] if meth == "abor" else []), name=f"Server.{meth}#{mode}")
+            c = contract(SERVER, f"Server.{meth}", props=["C03", "C04", "C05", "C11", "C13", "C16", "C17"] + (["C10"] if meth == "user" else []) + (["C14"] if meth == "abor" else []), name=f"Server.{meth}#{mode}")
             c.setup = make_handler_setup(meth, mode)
             c.uses = [(SERVER, "Server.get_paths"), (SERVER, "User.get_permissions#summary"), (SERVER, "Server._start_passive_server")]
             c.exit_hook = pasv_exit if meth in ("pasv", "epsv") else handler_exit
@@ -306,8 +306,17 @@ def c05_exit(S, outcome):
     d = conn.done_term
     stores = [(e[1], e[2]) for e in ctx.events if e[0] == "store"]
     written = {f for f, how in stores if how != "create-pending"}
-    ctx.check(f"{name}/exit:writes-only-the-session-fields-of-its-model", z3.BoolVal(written <= may_store), info=dict(T5, written=sorted(written)))
+    ctx.check(f"{name}/exit:writes-only-the-session-fields-of-its-model", z3.BoolVal(written <= may_store), info={"props": ["C05", "C17"], "written": sorted(written)})
+    # C16: guards that do not wait use a zero timeout; waiting guards use the session's wait_future_timeout
+    wft = it.unbox(conn.slots["wait_future_timeout"].fut.value)
+    for e in ctx.events:
+        if e[0] == "wait_for":
+            ok = (isinstance(e[1], int) and e[1] == 0) or e[1] is wft
+            ctx.check(f"{name}/exit:guard-timeouts-are-zero-or-wait_future_timeout", z3.BoolVal(bool(ok)), info={"props": ["C16"]})
     if outcome[0] != "return":
+        if verb == "rnto" and any(e[0] == "backend" and e[1] == "rename" for e in ctx.events):
+            # the pending rename is consumed by any RNTO that reached the backend, also when the backend fails (451)
+            ctx.check(f"{name}/raises:rename-consumed-once-the-backend-was-asked", tt(b_not(d("rename_from"))), info=T5)
         return
     res = outcome[1]
     # R1: exactly one final reply (ABOR with a running transfer: the replies come from the cancelled worker)
